@@ -34,6 +34,9 @@ def run(ctx: Ctx):
     ctx.attempt(no_globals, ctx)
     ctx.attempt(controller_order, ctx)
     ctx.attempt(wiring, ctx)
+    ctx.attempt(pending_reports, ctx)
+    from . import c19 as _c19
+    ctx.attempt(_c19.collectors, ctx)  # what a co-simulation caller picks up between two crank() calls is not wiped or refilled by the next one
     ctx.floor("WMC", 3)
     ctx.floor("ORD.driver", 4)
     ctx.not_decided += ["equality of states/events of differently split runs as observed behaviour (follows from the decided clauses + C16)"]
@@ -286,6 +289,30 @@ def wiring(ctx: Ctx):
                             ctx.check(good, "D2", "DU.threading", f"{f.qualname}: the payload's Update is replaced only in its step_update (the pre-step readers keep their position)", f, c,
                                       why_bad=f"u = {flow.dump(v)[:160]}", construct=f"{f.qualname}:update-replaced")
     ctx.require(n >= 1, "runner_payload_ops: no function replacing the payload's Update found")
+
+
+def pending_reports(ctx: Ctx):
+    """Splitting a run differently (crank(3) + crank(3) against crank(6), flushing every step or once) delivers the same reports only if a
+    report that was filed stays pending until a flush takes it: Reporter.reports is bound only in __init__ and flush, and emptied nowhere."""
+    REP = "nrel/hive/reporting/reporter.py"
+
+    def ok_w(s_):
+        f = s_.func
+        if f is not None and f.relpath == REP and f.qualname in ("Reporter.__init__", "Reporter.flush"):
+            return f.qualname
+        if f is not None and f.relpath != REP and f.cls is not None and f.cls.name != "Reporter" and isinstance(s_.node, ast.Attribute) and flow.dump(s_.node.value) == "self":
+            return "another class's own attribute of that name"
+        if f is not None and f.relpath.startswith("nrel/hive/resources"):
+            return "mock"
+        return None
+    rules.rule_field_writers(ctx, "D5", "reports", ok_w, "the pending report list is bound only by Reporter.__init__ and Reporter.flush", 2)
+    rep = ctx.repo.module(REP)
+    for f in rep.funcs.values():
+        if f.cls is None or f.cls.name != "Reporter" or f.name in ("__init__", "flush"):
+            continue
+        for n_ in ast.walk(f.node):
+            if isinstance(n_, ast.Call) and isinstance(n_.func, ast.Attribute) and n_.func.attr in ("clear", "pop", "remove") and flow.dump(n_.func.value) == "self.reports":
+                ctx.violation("D5", "WMC.writers", f"{f.qualname} removes pending reports", f, n_, why="reports filed but not yet flushed are dropped", construct=f"reports-removed:{f.qualname}")
 
 
 def selftest():
